@@ -233,22 +233,7 @@ Print Assumptions C14_source_cs_read_any_schedule.
    arrays are plain or run-length, followed by anything, under EVERY allocation schedule: a negative status with the out-cell
    untouched and everything the call allocated released by its own sbdf_cs_destroy - or OK with the stream exactly behind the
    slice and a result that one sbdf_cs_destroy releases completely. *)
-From Sbdf Require Import ImpFactsCsReadProps BaseFacts.
-Lemma props_of_encoding : forall (props : list (list Z * va)) tail, (forall p, In p props -> wf_prop p /\ venc (snd p) <> SBDF_BITARRAYENCODINGTYPEID) ->
-  props_end (List.length props) (List.concat (map (enc_prop false) props) ++ tail) = Some tail /\
-  props_nobit (List.length props) (List.concat (map (enc_prop false) props) ++ tail).
-Proof.
-  induction props as [|p props IH]; intros tail Hw; cbn [List.length map List.concat props_end props_nobit app]; [split; [reflexivity|exact I]|].
-  destruct (Hw p (or_introl eq_refl)) as ((Hl & Wv & Bv) & Hne).
-  destruct (rspec_string false (fst p) Hl) as [ES _]. destruct (rspec_va false (snd p) Wv Bv) as [EV _].
-  unfold enc_prop at 1 3. rewrite <- !app_assoc.
-  rewrite (ES (enc_va false (snd p) ++ List.concat (map (enc_prop false) props) ++ tail)).
-  rewrite (EV (List.concat (map (enc_prop false) props) ++ tail)).
-  destruct (IH tail (fun q Hq => Hw q (or_intror Hq))) as (I1 & I2).
-  split; [exact I1|]. split; [|exact I2].
-  intros t s2 X. unfold enc_va in X. cbn [app] in X. injection X as X _. destruct Wv; cbn [venc] in *; try discriminate X. apply Hne. reflexivity.
-Qed.
-
+From Sbdf Require Import ImpFactsCsReadProps BaseFacts ImpFactsTsRead.
 Theorem C14_source_cs_read_with_properties_any_schedule : forall rf rp fo po k m h c tail, wf_cs c -> venc (csvals c) <> SBDF_BITARRAYENCODINGTYPEID ->
   (forall p, In p (csprops c) -> venc (snd p) <> SBDF_BITARRAYENCODINGTYPEID) ->
   Forall byte (enc_cs false c ++ tail) ->
@@ -296,37 +281,6 @@ Print Assumptions C14_source_cs_read_with_properties_any_schedule.
    status with the out-cell untouched and everything the call allocated released - or OK with the stream exactly behind the
    table slice and a result that one sbdf_ts_destroy releases completely. *)
 From Sbdf Require Import ImpFactsTsRead.
-Definition nobit_cs (c : cs va) : Prop := venc (csvals c) <> SBDF_BITARRAYENCODINGTYPEID /\ forall p, In p (csprops c) -> venc (snd p) <> SBDF_BITARRAYENCODINGTYPEID.
-
-Lemma cs_of_encoding : forall c rest, wf_cs c -> nobit_cs c -> cs_end (enc_cs false c ++ rest) = Some rest /\ cs_nobit (enc_cs false c ++ rest).
-Proof.
-  intros c rest (Wv & Bv & Hn & Wp) (Hne & Hnp). pose proof (zlen_nonneg (csprops c)) as N0.
-  assert (ESX : enc_cs false c ++ rest = [223; 91; SBDF_COLUMNSLICE_SECTIONID] ++ (enc_va false (csvals c) ++ enc32 false (zlen (csprops c)) ++ List.concat (map (enc_prop false) (csprops c)) ++ rest)).
-  { unfold enc_cs. rewrite <- !app_assoc. reflexivity. }
-  rewrite ESX. set (PT := List.concat (map (enc_prop false) (csprops c)) ++ rest).
-  destruct (rspec_sec_expect SBDF_COLUMNSLICE_SECTIONID) as [E0 _].
-  destruct (rspec_va false (csvals c) Wv Bv) as [EV _].
-  destruct (rspec_int32 false (zlen (csprops c)) ltac:(unfold i32_range; lia)) as [E32 _].
-  destruct (props_of_encoding (csprops c) rest (fun p Hp => conj (Wp p Hp) (Hnp p Hp))) as (PE & PN). fold PT in PE, PN.
-  assert (Hlen : Z.to_nat (zlen (csprops c)) = List.length (csprops c)) by (unfold zlen; lia).
-  split.
-  - unfold cs_end. rewrite E0, (EV (enc32 false (zlen (csprops c)) ++ PT)), (E32 PT). replace (zlen (csprops c) <? 0) with false by lia. rewrite Hlen. exact PE.
-  - split.
-    + intros s1 E. rewrite E0 in E. assert (Y : s1 = enc_va false (csvals c) ++ enc32 false (zlen (csprops c)) ++ PT) by congruence. subst s1. intros t s2 X. unfold enc_va in X. cbn [app] in X. injection X as X _. destruct Wv; cbn [venc] in *; try discriminate X. apply Hne. reflexivity.
-    + intros s1 va s2 v s3 E A R. rewrite E0 in E. assert (Y : s1 = enc_va false (csvals c) ++ enc32 false (zlen (csprops c)) ++ PT) by congruence. subst s1.
-      rewrite (EV (enc32 false (zlen (csprops c)) ++ PT)) in A. assert (Y : s2 = enc32 false (zlen (csprops c)) ++ PT) by congruence. subst s2.
-      rewrite (E32 PT) in R. assert (Y : v = zlen (csprops c) /\ s3 = PT) by (split; congruence). destruct Y as (-> & ->). rewrite Hlen. exact PN.
-Qed.
-
-Lemma cols_of_encoding : forall (cols : list (cs va)) tail, (forall c, In c cols -> wf_cs c /\ nobit_cs c) ->
-  cols_end (List.length cols) (List.concat (map (enc_cs false) cols) ++ tail) = Some tail /\ cols_nobit (List.length cols) (List.concat (map (enc_cs false) cols) ++ tail).
-Proof.
-  induction cols as [|c cols IH]; intros tail Hw; cbn [List.length map List.concat cols_end cols_nobit app]; [split; [reflexivity|exact I]|].
-  destruct (Hw c (or_introl eq_refl)) as (Wc & Nc). rewrite <- app_assoc.
-  destruct (cs_of_encoding c (List.concat (map (enc_cs false) cols) ++ tail) Wc Nc) as (CE & CN). rewrite CE.
-  destruct (IH tail (fun q Hq => Hw q (or_intror Hq))) as (I1 & I2). split; [exact I1|]. split; [exact CN|exact I2].
-Qed.
-
 Theorem C14_source_ts_read_any_schedule : forall rf rp fo po k m (h : heap) tmb cols tail, wf_ts cols -> (forall c, In c cols -> nobit_cs c) -> zlen cols <= 715827882 ->
   cell_get h tmb 1 = Some (VInt (zlen cols)) -> Forall byte (enc_ts false cols ++ tail) ->
   exists f0, forall f, (f0 <= f)%nat -> exists st fin,
